@@ -17,7 +17,10 @@
                     exactly `2^m` times (C07: the non-zero states form one cycle of that length —
                     `count_period` transfers the count from the states to the stream);
   * `G_every_value` every `w`-bit value is output at some position `k < 2^n − 1`;
-  * `family_equidistributed` the 15 statements E2 in one conjunction.
+  * `family_equidistributed` the 15 statements E2 in one conjunction;
+  * `G_states_u32`, `G_period_u32`, `family_equidistributed_u32`: the same for the derived `next_u32`
+                    (upper resp. lower half of `next_u64`) of the nine generators with 64-bit words:
+                    `2^(m+32)` occurrences of every 32-bit value, one less for 0.
 
   The output is computed from the state *before* the step (`next` returns `(scramble s, T s)`),
   for XorShiftRng it is the new word `w` — in both cases a function of the current state, which
@@ -604,6 +607,221 @@ theorem family_equidistributed :
    Xoshiro512StarStar_period,
    XorShiftRng_period⟩
 
+/-! ## the derived `next_u32` of the nine generators with 64-bit words
+
+  `next_u32` is `(next_u64() >> 32) as u32` (`next_u64() as u32` for Xoroshiro128PlusPlus and
+  Xoroshiro128StarStar); every 32-bit value is a half of exactly `2^32` 64-bit values, so over one
+  period it occurs `2^(m+32)` times (`2^(m+32) − 1` times for 0). -/
+
+/-- `Xoroshiro128Plus::next_u32` (the upper half of `next_u64`), non-zero states -/
+theorem Xoroshiro128Plus_states_u32 (v : U32) :
+    (Finset.univ.filter (fun t : S2 64 => t ≠ S2.zero ∧ (Xoroshiro128Plus.gen.nextU32 t).1 = v)).card
+      = if v = 0 then 2 ^ 96 - 1 else 2 ^ 96 :=
+  states_count_comp (split2_0 64) (card_R1 64) S2.zero (fun t => (Xoroshiro128Plus.nextU64 t).1)
+    (fun r a => a + r) (fun r v => v - r)
+    (fun _ _ => rfl) (fun r v => BitVec.sub_add_cancel v r)
+    (fun r a => BitVec.add_sub_cancel a r)
+    (fun y => (y >>> 32).setWidth 32) card_upper (fun t => (Xoroshiro128Plus.gen.nextU32 t).1) (fun _ => rfl) rfl v
+
+/-- `Xoroshiro128Plus::next_u32` over one full period -/
+theorem Xoroshiro128Plus_period_u32 (s : S2 64) (hs : s ≠ S2.zero) (v : U32) :
+    ((Finset.range (2 ^ 128 - 1)).filter
+        (fun k => (Xoroshiro128Plus.gen.nextU32 (iter Xoroshiro128Plus.step k s)).1 = v)).card
+      = if v = 0 then 2 ^ 96 - 1 else 2 ^ 96 :=
+  (count_period (C07.xoroshiroU64_never_zero s hs) (C07.xoroshiroU64_no_repeat s hs)
+    (fun t ht => C07.xoroshiroU64_single_cycle s t hs ht)
+    (fun t => (Xoroshiro128Plus.gen.nextU32 t).1) v).trans (Xoroshiro128Plus_states_u32 v)
+
+example (v : U32) := Xoroshiro128Plus_period_u32 ⟨1, 0⟩ (by decide) v
+
+/-- `Xoroshiro128PlusPlus::next_u32` (the lower half of `next_u64`), non-zero states -/
+theorem Xoroshiro128PlusPlus_states_u32 (v : U32) :
+    (Finset.univ.filter (fun t : S2 64 => t ≠ S2.zero ∧ (Xoroshiro128PlusPlus.gen.nextU32 t).1 = v)).card
+      = if v = 0 then 2 ^ 96 - 1 else 2 ^ 96 :=
+  states_count_comp (split2_1 64) (card_R1 64) S2.zero (fun t => (Xoroshiro128PlusPlus.nextU64 t).1)
+    (fun r a => plusplusU64 r a 17) (fun r v => unPlusplus 17 r v)
+    (fun _ _ => rfl) (fun r v => plusplus_unPlusplus 17 r v)
+    (fun r a => unPlusplus_plusplus 17 r a)
+    (fun y => y.setWidth 32) card_lower (fun t => (Xoroshiro128PlusPlus.gen.nextU32 t).1) (fun _ => rfl) rfl v
+
+/-- `Xoroshiro128PlusPlus::next_u32` over one full period -/
+theorem Xoroshiro128PlusPlus_period_u32 (s : S2 64) (hs : s ≠ S2.zero) (v : U32) :
+    ((Finset.range (2 ^ 128 - 1)).filter
+        (fun k => (Xoroshiro128PlusPlus.gen.nextU32 (iter Xoroshiro128PlusPlus.step k s)).1 = v)).card
+      = if v = 0 then 2 ^ 96 - 1 else 2 ^ 96 :=
+  (count_period (C07.xoroshiroU64pp_never_zero s hs) (C07.xoroshiroU64pp_no_repeat s hs)
+    (fun t ht => C07.xoroshiroU64pp_single_cycle s t hs ht)
+    (fun t => (Xoroshiro128PlusPlus.gen.nextU32 t).1) v).trans (Xoroshiro128PlusPlus_states_u32 v)
+
+example (v : U32) := Xoroshiro128PlusPlus_period_u32 ⟨1, 0⟩ (by decide) v
+
+/-- `Xoroshiro128StarStar::next_u32` (the lower half of `next_u64`), non-zero states -/
+theorem Xoroshiro128StarStar_states_u32 (v : U32) :
+    (Finset.univ.filter (fun t : S2 64 => t ≠ S2.zero ∧ (Xoroshiro128StarStar.gen.nextU32 t).1 = v)).card
+      = if v = 0 then 2 ^ 96 - 1 else 2 ^ 96 :=
+  states_count_comp (split2_0 64) (card_R1 64) S2.zero (fun t => (Xoroshiro128StarStar.nextU64 t).1)
+    (fun _ a => starstarU64 a) (fun _ v => unStarstar64 v)
+    (fun _ _ => rfl) (fun _ v => starstar_unStarstar64 v)
+    (fun _ a => unStarstar64_starstar a)
+    (fun y => y.setWidth 32) card_lower (fun t => (Xoroshiro128StarStar.gen.nextU32 t).1) (fun _ => rfl) rfl v
+
+/-- `Xoroshiro128StarStar::next_u32` over one full period -/
+theorem Xoroshiro128StarStar_period_u32 (s : S2 64) (hs : s ≠ S2.zero) (v : U32) :
+    ((Finset.range (2 ^ 128 - 1)).filter
+        (fun k => (Xoroshiro128StarStar.gen.nextU32 (iter Xoroshiro128StarStar.step k s)).1 = v)).card
+      = if v = 0 then 2 ^ 96 - 1 else 2 ^ 96 :=
+  (count_period (C07.xoroshiroU64_never_zero s hs) (C07.xoroshiroU64_no_repeat s hs)
+    (fun t ht => C07.xoroshiroU64_single_cycle s t hs ht)
+    (fun t => (Xoroshiro128StarStar.gen.nextU32 t).1) v).trans (Xoroshiro128StarStar_states_u32 v)
+
+example (v : U32) := Xoroshiro128StarStar_period_u32 ⟨1, 0⟩ (by decide) v
+
+/-- `Xoshiro256Plus::next_u32` (the upper half of `next_u64`), non-zero states -/
+theorem Xoshiro256Plus_states_u32 (v : U32) :
+    (Finset.univ.filter (fun t : S4 64 => t ≠ S4.zero ∧ (Xoshiro256Plus.gen.nextU32 t).1 = v)).card
+      = if v = 0 then 2 ^ 224 - 1 else 2 ^ 224 :=
+  states_count_comp (split4_3 64) (card_R3 64) S4.zero (fun t => (Xoshiro256Plus.nextU64 t).1)
+    (fun r a => r.1 + a) (fun r v => v - r.1)
+    (fun _ _ => rfl) (fun r v => add_sub_cancel_left' r.1 v)
+    (fun r a => add_sub_cancel_left'' r.1 a)
+    (fun y => (y >>> 32).setWidth 32) card_upper (fun t => (Xoshiro256Plus.gen.nextU32 t).1) (fun _ => rfl) rfl v
+
+/-- `Xoshiro256Plus::next_u32` over one full period -/
+theorem Xoshiro256Plus_period_u32 (s : S4 64) (hs : s ≠ S4.zero) (v : U32) :
+    ((Finset.range (2 ^ 256 - 1)).filter
+        (fun k => (Xoshiro256Plus.gen.nextU32 (iter Xoshiro256Plus.step k s)).1 = v)).card
+      = if v = 0 then 2 ^ 224 - 1 else 2 ^ 224 :=
+  (count_period (C07.xoshiroU64_never_zero s hs) (C07.xoshiroU64_no_repeat s hs)
+    (fun t ht => C07.xoshiroU64_single_cycle s t hs ht)
+    (fun t => (Xoshiro256Plus.gen.nextU32 t).1) v).trans (Xoshiro256Plus_states_u32 v)
+
+example (v : U32) := Xoshiro256Plus_period_u32 ⟨1, 0, 0, 0⟩ (by decide) v
+
+/-- `Xoshiro256PlusPlus::next_u32` (the upper half of `next_u64`), non-zero states -/
+theorem Xoshiro256PlusPlus_states_u32 (v : U32) :
+    (Finset.univ.filter (fun t : S4 64 => t ≠ S4.zero ∧ (Xoshiro256PlusPlus.gen.nextU32 t).1 = v)).card
+      = if v = 0 then 2 ^ 224 - 1 else 2 ^ 224 :=
+  states_count_comp (split4_3 64) (card_R3 64) S4.zero (fun t => (Xoshiro256PlusPlus.nextU64 t).1)
+    (fun r a => plusplusU64 r.1 a 23) (fun r v => unPlusplus 23 r.1 v)
+    (fun _ _ => rfl) (fun r v => plusplus_unPlusplus 23 r.1 v)
+    (fun r a => unPlusplus_plusplus 23 r.1 a)
+    (fun y => (y >>> 32).setWidth 32) card_upper (fun t => (Xoshiro256PlusPlus.gen.nextU32 t).1) (fun _ => rfl) rfl v
+
+/-- `Xoshiro256PlusPlus::next_u32` over one full period -/
+theorem Xoshiro256PlusPlus_period_u32 (s : S4 64) (hs : s ≠ S4.zero) (v : U32) :
+    ((Finset.range (2 ^ 256 - 1)).filter
+        (fun k => (Xoshiro256PlusPlus.gen.nextU32 (iter Xoshiro256PlusPlus.step k s)).1 = v)).card
+      = if v = 0 then 2 ^ 224 - 1 else 2 ^ 224 :=
+  (count_period (C07.xoshiroU64_never_zero s hs) (C07.xoshiroU64_no_repeat s hs)
+    (fun t ht => C07.xoshiroU64_single_cycle s t hs ht)
+    (fun t => (Xoshiro256PlusPlus.gen.nextU32 t).1) v).trans (Xoshiro256PlusPlus_states_u32 v)
+
+example (v : U32) := Xoshiro256PlusPlus_period_u32 ⟨1, 0, 0, 0⟩ (by decide) v
+
+/-- `Xoshiro256StarStar::next_u32` (the upper half of `next_u64`), non-zero states -/
+theorem Xoshiro256StarStar_states_u32 (v : U32) :
+    (Finset.univ.filter (fun t : S4 64 => t ≠ S4.zero ∧ (Xoshiro256StarStar.gen.nextU32 t).1 = v)).card
+      = if v = 0 then 2 ^ 224 - 1 else 2 ^ 224 :=
+  states_count_comp (split4_1 64) (card_R3 64) S4.zero (fun t => (Xoshiro256StarStar.nextU64 t).1)
+    (fun _ a => starstarU64 a) (fun _ v => unStarstar64 v)
+    (fun _ _ => rfl) (fun _ v => starstar_unStarstar64 v)
+    (fun _ a => unStarstar64_starstar a)
+    (fun y => (y >>> 32).setWidth 32) card_upper (fun t => (Xoshiro256StarStar.gen.nextU32 t).1) (fun _ => rfl) rfl v
+
+/-- `Xoshiro256StarStar::next_u32` over one full period -/
+theorem Xoshiro256StarStar_period_u32 (s : S4 64) (hs : s ≠ S4.zero) (v : U32) :
+    ((Finset.range (2 ^ 256 - 1)).filter
+        (fun k => (Xoshiro256StarStar.gen.nextU32 (iter Xoshiro256StarStar.step k s)).1 = v)).card
+      = if v = 0 then 2 ^ 224 - 1 else 2 ^ 224 :=
+  (count_period (C07.xoshiroU64_never_zero s hs) (C07.xoshiroU64_no_repeat s hs)
+    (fun t ht => C07.xoshiroU64_single_cycle s t hs ht)
+    (fun t => (Xoshiro256StarStar.gen.nextU32 t).1) v).trans (Xoshiro256StarStar_states_u32 v)
+
+example (v : U32) := Xoshiro256StarStar_period_u32 ⟨1, 0, 0, 0⟩ (by decide) v
+
+/-- `Xoshiro512Plus::next_u32` (the upper half of `next_u64`), non-zero states -/
+theorem Xoshiro512Plus_states_u32 (v : U32) :
+    (Finset.univ.filter (fun t : S8 => t ≠ S8.zero ∧ (Xoshiro512Plus.gen.nextU32 t).1 = v)).card
+      = if v = 0 then 2 ^ 480 - 1 else 2 ^ 480 :=
+  states_count_comp (split8_0) (card_R7) S8.zero (fun t => (Xoshiro512Plus.nextU64 t).1)
+    (fun r a => a + r.2.1) (fun r v => v - r.2.1)
+    (fun _ _ => rfl) (fun r v => BitVec.sub_add_cancel v r.2.1)
+    (fun r a => BitVec.add_sub_cancel a r.2.1)
+    (fun y => (y >>> 32).setWidth 32) card_upper (fun t => (Xoshiro512Plus.gen.nextU32 t).1) (fun _ => rfl) rfl v
+
+/-- `Xoshiro512Plus::next_u32` over one full period -/
+theorem Xoshiro512Plus_period_u32 (s : S8) (hs : s ≠ S8.zero) (v : U32) :
+    ((Finset.range (2 ^ 512 - 1)).filter
+        (fun k => (Xoshiro512Plus.gen.nextU32 (iter Xoshiro512Plus.step k s)).1 = v)).card
+      = if v = 0 then 2 ^ 480 - 1 else 2 ^ 480 :=
+  (count_period (C07.xoshiroLarge_never_zero s hs) (C07.xoshiroLarge_no_repeat s hs)
+    (fun t ht => C07.xoshiroLarge_single_cycle s t hs ht)
+    (fun t => (Xoshiro512Plus.gen.nextU32 t).1) v).trans (Xoshiro512Plus_states_u32 v)
+
+example (v : U32) := Xoshiro512Plus_period_u32 ⟨1, 0, 0, 0, 0, 0, 0, 0⟩ (by decide) v
+
+/-- `Xoshiro512PlusPlus::next_u32` (the upper half of `next_u64`), non-zero states -/
+theorem Xoshiro512PlusPlus_states_u32 (v : U32) :
+    (Finset.univ.filter (fun t : S8 => t ≠ S8.zero ∧ (Xoshiro512PlusPlus.gen.nextU32 t).1 = v)).card
+      = if v = 0 then 2 ^ 480 - 1 else 2 ^ 480 :=
+  states_count_comp (split8_0) (card_R7) S8.zero (fun t => (Xoshiro512PlusPlus.nextU64 t).1)
+    (fun r a => plusplusU64 r.2.1 a 17) (fun r v => unPlusplus 17 r.2.1 v)
+    (fun _ _ => rfl) (fun r v => plusplus_unPlusplus 17 r.2.1 v)
+    (fun r a => unPlusplus_plusplus 17 r.2.1 a)
+    (fun y => (y >>> 32).setWidth 32) card_upper (fun t => (Xoshiro512PlusPlus.gen.nextU32 t).1) (fun _ => rfl) rfl v
+
+/-- `Xoshiro512PlusPlus::next_u32` over one full period -/
+theorem Xoshiro512PlusPlus_period_u32 (s : S8) (hs : s ≠ S8.zero) (v : U32) :
+    ((Finset.range (2 ^ 512 - 1)).filter
+        (fun k => (Xoshiro512PlusPlus.gen.nextU32 (iter Xoshiro512PlusPlus.step k s)).1 = v)).card
+      = if v = 0 then 2 ^ 480 - 1 else 2 ^ 480 :=
+  (count_period (C07.xoshiroLarge_never_zero s hs) (C07.xoshiroLarge_no_repeat s hs)
+    (fun t ht => C07.xoshiroLarge_single_cycle s t hs ht)
+    (fun t => (Xoshiro512PlusPlus.gen.nextU32 t).1) v).trans (Xoshiro512PlusPlus_states_u32 v)
+
+example (v : U32) := Xoshiro512PlusPlus_period_u32 ⟨1, 0, 0, 0, 0, 0, 0, 0⟩ (by decide) v
+
+/-- `Xoshiro512StarStar::next_u32` (the upper half of `next_u64`), non-zero states -/
+theorem Xoshiro512StarStar_states_u32 (v : U32) :
+    (Finset.univ.filter (fun t : S8 => t ≠ S8.zero ∧ (Xoshiro512StarStar.gen.nextU32 t).1 = v)).card
+      = if v = 0 then 2 ^ 480 - 1 else 2 ^ 480 :=
+  states_count_comp (split8_1) (card_R7) S8.zero (fun t => (Xoshiro512StarStar.nextU64 t).1)
+    (fun _ a => starstarU64 a) (fun _ v => unStarstar64 v)
+    (fun _ _ => rfl) (fun _ v => starstar_unStarstar64 v)
+    (fun _ a => unStarstar64_starstar a)
+    (fun y => (y >>> 32).setWidth 32) card_upper (fun t => (Xoshiro512StarStar.gen.nextU32 t).1) (fun _ => rfl) rfl v
+
+/-- `Xoshiro512StarStar::next_u32` over one full period -/
+theorem Xoshiro512StarStar_period_u32 (s : S8) (hs : s ≠ S8.zero) (v : U32) :
+    ((Finset.range (2 ^ 512 - 1)).filter
+        (fun k => (Xoshiro512StarStar.gen.nextU32 (iter Xoshiro512StarStar.step k s)).1 = v)).card
+      = if v = 0 then 2 ^ 480 - 1 else 2 ^ 480 :=
+  (count_period (C07.xoshiroLarge_never_zero s hs) (C07.xoshiroLarge_no_repeat s hs)
+    (fun t ht => C07.xoshiroLarge_single_cycle s t hs ht)
+    (fun t => (Xoshiro512StarStar.gen.nextU32 t).1) v).trans (Xoshiro512StarStar_states_u32 v)
+
+example (v : U32) := Xoshiro512StarStar_period_u32 ⟨1, 0, 0, 0, 0, 0, 0, 0⟩ (by decide) v
+
+theorem family_equidistributed_u32 :
+    Equidistributed Xoroshiro128Plus.gen.nextU32 S2.zero 128 96 ∧
+    Equidistributed Xoroshiro128PlusPlus.gen.nextU32 S2.zero 128 96 ∧
+    Equidistributed Xoroshiro128StarStar.gen.nextU32 S2.zero 128 96 ∧
+    Equidistributed Xoshiro256Plus.gen.nextU32 S4.zero 256 224 ∧
+    Equidistributed Xoshiro256PlusPlus.gen.nextU32 S4.zero 256 224 ∧
+    Equidistributed Xoshiro256StarStar.gen.nextU32 S4.zero 256 224 ∧
+    Equidistributed Xoshiro512Plus.gen.nextU32 S8.zero 512 480 ∧
+    Equidistributed Xoshiro512PlusPlus.gen.nextU32 S8.zero 512 480 ∧
+    Equidistributed Xoshiro512StarStar.gen.nextU32 S8.zero 512 480 :=
+  ⟨Xoroshiro128Plus_period_u32,
+   Xoroshiro128PlusPlus_period_u32,
+   Xoroshiro128StarStar_period_u32,
+   Xoshiro256Plus_period_u32,
+   Xoshiro256PlusPlus_period_u32,
+   Xoshiro256StarStar_period_u32,
+   Xoshiro512Plus_period_u32,
+   Xoshiro512PlusPlus_period_u32,
+   Xoshiro512StarStar_period_u32⟩
+
 /-- the two frequencies add up to the period: `(2^w − 1) · 2^m + (2^m − 1) = 2^(w+m) − 1` -/
 theorem frequencies_sum (w m : Nat) : (2 ^ w - 1) * 2 ^ m + (2 ^ m - 1) = 2 ^ (w + m) - 1 := by
   have h1 : 0 < 2 ^ w := Nat.two_pow_pos w
@@ -675,3 +893,22 @@ end Rngs.Extra.Equidistribution
 #print axioms Rngs.Extra.Equidistribution.XorShiftRng_period
 #print axioms Rngs.Extra.Equidistribution.XorShiftRng_every_value
 #print axioms Rngs.Extra.Equidistribution.family_equidistributed
+#print axioms Rngs.Extra.Equidistribution.Xoroshiro128Plus_states_u32
+#print axioms Rngs.Extra.Equidistribution.Xoroshiro128Plus_period_u32
+#print axioms Rngs.Extra.Equidistribution.Xoroshiro128PlusPlus_states_u32
+#print axioms Rngs.Extra.Equidistribution.Xoroshiro128PlusPlus_period_u32
+#print axioms Rngs.Extra.Equidistribution.Xoroshiro128StarStar_states_u32
+#print axioms Rngs.Extra.Equidistribution.Xoroshiro128StarStar_period_u32
+#print axioms Rngs.Extra.Equidistribution.Xoshiro256Plus_states_u32
+#print axioms Rngs.Extra.Equidistribution.Xoshiro256Plus_period_u32
+#print axioms Rngs.Extra.Equidistribution.Xoshiro256PlusPlus_states_u32
+#print axioms Rngs.Extra.Equidistribution.Xoshiro256PlusPlus_period_u32
+#print axioms Rngs.Extra.Equidistribution.Xoshiro256StarStar_states_u32
+#print axioms Rngs.Extra.Equidistribution.Xoshiro256StarStar_period_u32
+#print axioms Rngs.Extra.Equidistribution.Xoshiro512Plus_states_u32
+#print axioms Rngs.Extra.Equidistribution.Xoshiro512Plus_period_u32
+#print axioms Rngs.Extra.Equidistribution.Xoshiro512PlusPlus_states_u32
+#print axioms Rngs.Extra.Equidistribution.Xoshiro512PlusPlus_period_u32
+#print axioms Rngs.Extra.Equidistribution.Xoshiro512StarStar_states_u32
+#print axioms Rngs.Extra.Equidistribution.Xoshiro512StarStar_period_u32
+#print axioms Rngs.Extra.Equidistribution.family_equidistributed_u32
